@@ -389,6 +389,21 @@ def r15_9(prog: Program, rep: Report):
     rep.check(ok, "R15.9", gh.qualname, gh.loc, f"on the {len(rejected)} path(s) where typing.get_type_hints rejects the object, the alias's origin is consulted", "when typing.get_type_hints rejects the object (a parameterised user generic such as Box[int] is an alias, not a class) the wrapper goes straight to the signature, which for an alias is (*args, **kwargs): the routine knows no field and unmarshal(Box[int], {'value': 1}) raises TypeError: __init__() missing 1 required positional argument", detail="alias-hints")
 
 
+def _arg_builder(idx, is_zip):
+    """The comprehension that produces the new arguments when `idx` *is* such a tuple: tuple(<comp>), (*<comp>,) or the
+    comprehension itself, its element looking the parameter up in the zip map (not any index that merely mentions one)."""
+    c = None
+    if idx[0] == "comp":
+        c = idx
+    elif idx[0] == "call" and T.refname(idx[1]) in ("builtins.tuple", "builtins.list") and len(idx[2]) == 1 and idx[2][0][0] == "comp":
+        c = idx[2][0]
+    elif idx[0] in ("tuple", "list") and len(idx[1]) == 1 and idx[1][0][0] == "star" and idx[1][0][1][0] == "comp":
+        c = idx[1][0][1]
+    if c is not None and T.contains(c[2], is_zip):
+        return c
+    return None
+
+
 def alias_substitution(prog: Program, rep: Report, rule: str):
     """Where the member hints of a parameterised user generic are re-subscripted (`dict[V, K]` of `Index[str, int]` becomes
     `dict[int, str]`) the new arguments follow the *member's own* parameter order (member.__parameters__), each looked up in the
@@ -401,7 +416,7 @@ def alias_substitution(prog: Program, rep: Report, rule: str):
     for p in ps:
         for tm in p.all_terms():
             for x in T.walk(tm):
-                if x[0] == "sub" and any(c[0] == "comp" and T.contains(c, is_zip) for c in T.walk(x[2])):
+                if x[0] == "sub" and _arg_builder(x[2], is_zip) is not None:
                     sites[x] = None
                 if is_zip(x) and any(T.contains(a, lambda y: y == ("const", "__parameters__") or (y[0] == "attr" and y[2] == "__parameters__")) for a in x[2]):
                     zips[x] = None
@@ -412,17 +427,21 @@ def alias_substitution(prog: Program, rep: Report, rule: str):
     # a member that is a bare generic *class* (`raw: Box`) also has __parameters__, but it is not waiting for arguments: on the
     # path of every re-subscription the member is known not to be a class
     for p in ps:
-        here = [x for tm in p.all_terms() for x in T.walk(tm) if x in sites]
-        if not here:
+        roots = [tm for tm in p.all_terms() if any(x in sites for x in T.walk(tm))]
+        if not roots:
             continue
-        atoms = T.derive_atoms(p.guards())
-        for x in dict.fromkeys(here):
+        for x in sites:
             h = x[1]
-            if not any((not val) and T.is_call_to(a, "inspect.isclass") and a[2][:1] == (h,) for a, val in atoms) and not any(val and T.is_call_to(a, f"{C.INSP}.issubscriptedgeneric", "typing.get_origin") and a[2][:1] == (h,) for a, val in atoms):
+            occurrences = [conds for tm in roots for conds in T.enclosing_conditions(tm, x)]
+            for conds in occurrences:
+                # what holds where the re-subscription is evaluated: the path's guards and the conditional expressions / filters around it
+                atoms = T.derive_atoms(list(p.guards()) + conds)
+                if any((not val) and T.is_call_to(a, "inspect.isclass") and a[2][:1] == (h,) for a, val in atoms) or any(val and T.is_call_to(a, f"{C.INSP}.issubscriptedgeneric", "typing.get_origin") and a[2][:1] == (h,) for a, val in atoms):
+                    continue
                 why = "a member annotated with a bare generic class (`raw: Box` inside `Holder(Generic[T])`) is re-subscripted with the alias's arguments because the class, too, has __parameters__: Holder[int] converts raw.v to int, input that Holder and Box pass through is rejected or silently re-typed"
     for x in sites:
         h, idx = x[1], x[2]
-        c = [c for c in T.walk(idx) if c[0] == "comp" and T.contains(c, is_zip)][0]
+        c = _arg_builder(idx, is_zip)
         src = c[3][0][0]
         own = src == ("attr", h, "__parameters__") or (T.is_call_to(src, "builtins.getattr") and src[2][:2] == (h, ("const", "__parameters__")))
         if not own:
